@@ -6,6 +6,7 @@ cd "$(dirname "$0")"
 export CARGO_NET_OFFLINE=true
 mkdir -p .cache evidence replays work coq/gen
 python3 tools/translate.py all
+./tools/mkcerts.sh || echo 'certificates not generated (C17 lane will skip)'
 ( cd coq && coq_makefile -f _CoqProject -o Makefile >/dev/null 2>&1 && timeout 3000 make -j16 2>&1 | grep -v '^COQC\|^COQDEP\|^Closed under\|^CLEAN' | tail -20; test ${PIPESTATUS[0]} -eq 0 )
 ./tools/build_runner.sh
 [ -f harness/Cargo.lock ] || cp /repo/Cargo.lock harness/Cargo.lock
